@@ -7,4 +7,5 @@ CONSTANTS BlockLists = {"b1", "b2"}
           ForcedBeh <- BehTiny
           SchedBeh <- BehTiny
           FileBeh <- BehTiny
-
+          SetURLBeh <- BehNone
+          SetURLAsIs = FALSE
